@@ -393,11 +393,22 @@ func insertWrapper(fn *ssa.Function) bool {
 	if fn == nil || len(fn.Blocks) == 0 {
 		return false
 	}
+	return insertWrapperDepth(fn, 0)
+}
+
+func insertWrapperDepth(fn *ssa.Function, depth int) bool {
 	ins := false
 	for _, f := range withClosures(fn) {
 		allInstrs(f, func(in ssa.Instruction) {
 			if _, ok := in.(*ssa.MapUpdate); ok {
 				ins = true
+			}
+			// the insertion may sit in a small method of the same receiver (Add calling addDirected twice)
+			if ci, ok := in.(ssa.CallInstruction); ok && depth < 2 {
+				if g := ci.Common().StaticCallee(); g != nil && g != fn && g.Signature.Recv() != nil && fn.Signature.Recv() != nil &&
+					types.Identical(g.Signature.Recv().Type(), fn.Signature.Recv().Type()) && len(g.Blocks) <= 6 && insertWrapperDepth(g, depth+1) {
+					ins = true
+				}
 			}
 		})
 	}
